@@ -134,6 +134,23 @@ def family(rnd, d, kind, lattice):
     raise ValueError(kind)
 
 
+def designed(rnd, d):
+    """triangles with a prescribed Jacobian determinant (dyadic control values, exact in binary64):
+       d = 2:  x = s^2/2 - c s + e t,  y = (s - c) t + s    =>  det J = (s - c)^2 - e (1 + t)
+       d = 3:  x = 3 s^3 - 9 c s^2 + 9 c^2 s + 3 e t,  y = 3 s + 3 t   =>  det J = 27 (s - c)^2 - 9 e
+    with the line s = c off the grid of the verdict's bisection and e graded: e = 0 (det J touches zero without changing
+    sign), e > 0 tiny (a thin strip det J < 0 that a few bisection rounds cannot see), e < 0 tiny (valid, thin margin)"""
+    c = Fr(rnd.choice([21, 11, 37, 43, 13, 27]), 64)
+    e = rnd.choice([Fr(0), Fr(0), Fr(1, 2 ** 14), Fr(1, 2 ** 12), Fr(5, 2 ** 16), Fr(1, 2 ** 9), -Fr(1, 2 ** 14), -Fr(1, 2 ** 10), -Fr(1, 2 ** 6)])
+    if d == 2:
+        px = {(2, 0): Fr(1, 2), (1, 0): -c, (0, 1): e}
+        py = {(1, 1): Fr(1), (0, 1): -c, (1, 0): Fr(1)}
+    else:
+        px = {(3, 0): Fr(3), (2, 0): -9 * c, (1, 0): 9 * c * c, (0, 1): 3 * e}
+        py = {(1, 0): Fr(3), (0, 1): Fr(3)}
+    return [power_to_bernstein(px, d), power_to_bernstein(py, d)], "c=%s e=%s" % (c, e)
+
+
 def main():
     bezier = C.import_bezier()
     from bezier.hazmat import triangle_helpers as TH
@@ -159,6 +176,11 @@ def main():
                 for lattice in (True, False):
                     for _ in range(20 if not thorough else 120):
                         add("verdict", nodes=family(rnd, d, fam, lattice), d=d, family=fam, lattice=lattice)
+        for d in (2, 3):
+            for _ in range(24 if not thorough else 120):
+                nodes, tag = designed(rnd, d)
+                assert all(Fr(float(v)) == v for r in nodes for v in r)
+                add("verdict", nodes=nodes, d=d, family="designed:" + tag, lattice=True)
         for d in (2, 3):
             nn = G.tri_nodes_count(d)
             for _ in range(10 if not thorough else 60):
@@ -186,7 +208,7 @@ def main():
         nodes = [[Fr(float(x)) for x in r] for r in nodes]      # what the implementation really sees
         jkw = {k: (C.jfr(v) if k == "nodes" else v) for k, v in kw.items()}
         rc = {"kind": kind, "kw": jkw}
-        res.count((kind, str(jkw)), kind=kind, degree=d, family=kw.get("family", "-"), lattice=kw.get("lattice", "-"))
+        res.count((kind, str(jkw)), kind=kind, degree=d, family=str(kw.get("family", "-")).split(":")[0], lattice=kw.get("lattice", "-"))
         res.sample({"kind": kind, "degree": d, "family": kw.get("family")})
         try:
             if kind == "verdict":
